@@ -473,17 +473,17 @@ def main(tier, seed):
                 kinds = [k for k in G.ALL_KINDS if rng.random() < 0.5]
             st = G.Style(rng, kinds)
             text = G.render(lines, st)
-            style_cases.append({'i': i, 'kinds': kinds, 'a': gbase[i], 'b': text})
+            style_cases.append({'i': i, 'j': j, 'kinds': kinds, 'a': gbase[i], 'b': text})
     # probes: fixed pairs
     probes = PROBES
     for a, b, kinds in probes:
-        style_cases.append({'i': -1, 'kinds': kinds, 'a': a, 'b': b})
+        style_cases.append({'i': -1, 'j': 0, 'kinds': kinds, 'a': a, 'b': b})
 
     # ---- suite canon
-    step = 5 if quick else 2
+    step = 10 if quick else 2
     if want('canon'):
         texts = list(csrc) + list(gbase)
-        texts += [c['b'] for c in style_cases[::step]]
+        texts += [c['b'] for c in style_cases if c['i'] < 0 or (c['i'] + c['j']) % step == 0]
         texts = list(dict.fromkeys(texts))
         mouts = vlib.run_model(exe, [[3, t] for t in texts])
         if not model_failed(ctx, 'canon', mouts):
@@ -507,7 +507,7 @@ def main(tier, seed):
                             'canon': cases[len(cases) // 2]['b'][:300]})
                 ctx.bump('canon-accepted-texts', nacc)
     ctx.rule.append(f'canon: {len(csrc)} corpus programs (accepted and rejected) + {ngen} generated programs + '
-                    f'every {step}th respelled variant; compile(t) vs compile(canon t) (canon from the extracted '
+                    f'the respelled variants (i, j) with (i + j) mod {step} = 0 and the probes; compile(t) vs compile(canon t) (canon from the extracted '
                     f'model): same verdict, sections 1-4 identical at levels 0 and 2; canon(canon t) = canon t; '
                     f'non-trivial = distinct text')
 
